@@ -128,13 +128,13 @@ Convert(st, ref, fmode) ==
           !.nconv = Put(@, k, CntOf(@, k) + 1),
           !.taint = IF frame >= 0 /\ (~inOrder \/ k \in @) THEN @ \cup {k} ELSE @]
 
-RECURSIVE ProcRefs(_, _, _)
-ProcRefs(st, rs, fmode) ==          \* event(): convert what is cached, remember the rest
+RECURSIVE ProcRefs(_, _, _, _)
+ProcRefs(st, rs, fmode, defer) ==   \* event(): convert what is cached (and not postponed), remember the rest
     IF rs = <<>> THEN st
     ELSE LET h == Head(rs)
-         IN IF h.id \in DOMAIN st.dcache
-            THEN ProcRefs(Convert(st, h, fmode), Tail(rs), fmode)
-            ELSE ProcRefs([st EXCEPT !.refs = Append(@, h)], Tail(rs), fmode)
+         IN IF h.id \in DOMAIN st.dcache /\ h.id \notin defer
+            THEN ProcRefs(Convert(st, h, fmode), Tail(rs), fmode, defer)
+            ELSE ProcRefs([st EXCEPT !.refs = Append(@, h)], Tail(rs), fmode, defer)
 
 RECURSIVE ProcLate(_, _, _)
 ProcLate(st, rs, fmode) ==          \* stop(): every cached reference must have its datum by now
@@ -180,10 +180,12 @@ DoDatum(id, r, frame, kw, mmode) ==
     /\ out' = <<>>
     /\ UNCHANGED <<sres, refs, fr, emitted, sdm, evs, evvals, nconv, taint>>
 
-\* event(): internal values re-emitted, then every external reference converted or remembered
-DoEvent(d, s, val, rs, fmode) ==
+\* event(): internal values re-emitted, then every external reference converted or remembered.
+\* defer = references postponed to stop although their datum is cached: {} in the code as found; a repair of
+\* KF-C35-2 may postpone (any choice satisfies the statement), trace validation reads it off the emitted documents.
+DoEvent(d, s, val, rs, fmode, defer) ==
     /\ phase \in {"desc", "open"}
-    /\ LET st == ProcRefs(St, rs, fmode)
+    /\ LET st == ProcRefs(St, rs, fmode, defer)
        IN /\ Assign(st)
           /\ out' = <<EEvent(d, s, val)>> \o st.out
     /\ evs' = evs \cup {rs[i] : i \in 1..Len(rs)}
@@ -292,7 +294,7 @@ MEvent ==
     /\ InBody /\ nextEv <= conf.nev
     /\ conf.modern => \A k \in 1..conf.nk : DatumOf(k, nextEv) \in DOMAIN got
     /\ \E fm \in Modes(FrameMode) :
-          DoEvent(1, nextEv, ValOf(nextEv), IF conf.modern THEN <<>> ELSE RefsOf(nextEv), fm)
+          DoEvent(1, nextEv, ValOf(nextEv), IF conf.modern THEN <<>> ELSE RefsOf(nextEv), fm, {})
     /\ nextEv' = nextEv + 1
     /\ UNCHANGED <<conf, phase, nres, got>>
     /\ Log(H("event", 1, nextEv, 0, 0, 0))
